@@ -125,10 +125,9 @@ class NonFinite(Exception):
     pass
 
 
-def lucase_text(cid, M, res, rhs_cols=None, x_cols=None, p=53, klu=None, kres=None, thresh=(1, 1), cplx=False, trans=False):
-    """Build the integer-only case block for `sludrv lucheck` (real precisions).
-    M: gen.Mat as factored (for NR storage pass the transposed matrix, i.e. what the library factors
-    is irrelevant here: pass the *user's* A in NC form together with perms as returned)."""
+def _lucase_block(cid, M, res, rhs_cols, x_cols, p, klu, kres, thresh, trans, part=None, E_force=None):
+    """one integer-only case block.  part=None: real data; part=0/1: real / imaginary parts of complex data
+    (matrix values are (re, im) tuples, dumped arrays are interleaved re im re im ...)."""
     n = M.n
     allv = []
     def D(x):
@@ -136,10 +135,14 @@ def lucase_text(cid, M, res, rhs_cols=None, x_cols=None, p=53, klu=None, kres=No
         if d is None:
             raise NonFinite()
         allv.append(d); return d
+    def mv(v):
+        return v if part is None else v[part]
+    def arr(vals):
+        return list(vals) if part is None else list(vals[part::2])
     A = []
     for j, col in M.cols():
         for i, v in col:
-            A.append((i, j, D(v)))
+            A.append((i, j, D(mv(v))))
     sn = []
     for s in res["Lsup"]:
         if s is None:
@@ -147,15 +150,17 @@ def lucase_text(cid, M, res, rhs_cols=None, x_cols=None, p=53, klu=None, kres=No
         cols = []
         for j in range(s["f"], s["e"]):
             b, vals = res["Lcol"][j]
-            cols.append((b, [D(v) for v in vals]))
+            cols.append((b, [D(v) for v in arr(vals)]))
         sn.append((s, cols))
     ucols = []
     for j, (rows, vals) in enumerate(res["Ucol"]):
-        ucols.append((res["U.colbeg"][j], rows, [D(v) for v in vals]))
+        ucols.append((res["U.colbeg"][j], rows, [D(v) for v in arr(vals)]))
     B = []; X = []
     for r in range(len(rhs_cols or [])):
-        B.append([D(v) for v in rhs_cols[r]]); X.append([D(v) for v in x_cols[r]])
+        B.append([D(mv(v)) for v in rhs_cols[r]]); X.append([D(mv(v)) for v in x_cols[r]])
     E = min([0] + [e for (m, e) in allv if m != 0])
+    if E_force is not None:
+        E = E_force
     # b is scaled by 2^(2E): fine since every exponent >= E >= 2E
     klu = klu if klu is not None else n
     kres = kres if kres is not None else 3 * n
@@ -181,7 +186,25 @@ def lucase_text(cid, M, res, rhs_cols=None, x_cols=None, p=53, klu=None, kres=No
         out.append("b " + " ".join("%d %d" % d for d in B[r]))
         out.append("x " + " ".join("%d %d" % d for d in X[r]))
     out.append("end")
-    return "\n".join(out) + "\n"
+    return "\n".join(out) + "\n", E
+
+
+def lucase_text(cid, M, res, rhs_cols=None, x_cols=None, p=53, klu=None, kres=None, thresh=(1, 1), cplx=False, trans=False):
+    """Build the integer-only case block for `sludrv lucheck` (real) or the pair of blocks (real parts, imaginary parts, one
+    common scale) for `sludrv clucheck` (complex).
+    M: gen.Mat as factored (for NR storage pass the transposed matrix, i.e. what the library factors
+    is irrelevant here: pass the *user's* A in NC form together with perms as returned)."""
+    if not cplx:
+        return _lucase_block(cid, M, res, rhs_cols, x_cols, p, klu, kres, thresh, trans)[0]
+    n = M.n
+    klu = klu if klu is not None else 2 * n + 6        # complex multiply-add: a few more rounding errors per term; embedded dimension 2n
+    kres = kres if kres is not None else 3 * (2 * n + 6)
+    _, e0 = _lucase_block(cid, M, res, rhs_cols, x_cols, p, klu, kres, thresh, trans, part=0)
+    _, e1 = _lucase_block(cid, M, res, rhs_cols, x_cols, p, klu, kres, thresh, trans, part=1)
+    E = min(e0, e1)
+    t0, _ = _lucase_block(cid, M, res, rhs_cols, x_cols, p, klu, kres, thresh, trans, part=0, E_force=E)
+    t1, _ = _lucase_block(cid, M, res, rhs_cols, x_cols, p, klu, kres, thresh, trans, part=1, E_force=E)
+    return t0 + t1
 
 
 def parse_verdicts(text):
